@@ -1,6 +1,7 @@
 import GambitV.Model.Find
 import GambitV.Spec.Signature
 import Driver.Proto
+import Driver.PyGenCmp
 namespace Driver.C01
 open GambitV Driver
 
@@ -23,7 +24,9 @@ def handle : List String → Option String
     let hay := haystack s
     let mf := fwdMatches k pre hay
     let mr := (revMatches k pre hay).map (· + pre.length - 1)
-    pure (expect (natsOf mf ++ "|" ++ natsOf mr) (fwd ++ "|" ++ rev))
+    let r := expect (natsOf mf ++ "|" ++ natsOf mr) (fwd ++ "|" ++ rev)
+    if r != "ok" then pure r else
+    pure ((PyGen.findKmers k pre s (fwd ++ "|" ++ rev)).getD "ok")
   -- c01.bfind hay pat start stop real : bytes.find with normalised bounds
   | ["c01.bfind", hay, pat, start, stop, real] => do
     let hay ← parseHex hay
